@@ -81,10 +81,6 @@ class Convert(Harness):
     def build(self, ctx):
         n = choice("n", range(1, self.maxn + 1))
         cols = {f"c{j}": mk_col(k, n, f"c{j}") for j, k in enumerate(self.kinds)}
-        if self.leg == "json":
-            for c in cols.values():
-                if kind_of(c) == "f":
-                    for x in c.cells: ctx.assume(z3.Not(z3.fpIsInf(x)), note="JSON leg: finite floats or NaN (JSON has no Infinity)")
         inp = {"data": Frame(cols), "leg": self.leg}
         if self.leg == "json" and choice("back_dtypes", [False, True]): inp["back_dtypes"] = True
         return inp
@@ -97,6 +93,14 @@ class Convert(Harness):
                 pr.append((f"{nm}: a datetime before the year 1000", z3.Or([z3.And(c != symx.INT64_MIN, c < -30610224000 * 10**6) for c in col.cells])))
             if kind_of(col) == "D":
                 pr.append((f"{nm}: a date before the year 1000", z3.Or([z3.And(c != symx.INT64_MIN, c < -354285) for c in col.cells])))
+            if kind_of(col) == "f":
+                # Python's json writes and reads Infinity / -Infinity / NaN; the JSON codec is a contract model: observe the real one
+                cs = col.cells
+                pr.append((f"{nm}: positive infinity", z3.Or([z3.And(z3.fpIsInf(c), z3.fpIsPositive(c)) for c in cs])))
+                pr.append((f"{nm}: negative infinity", z3.Or([z3.And(z3.fpIsInf(c), z3.fpIsNegative(c)) for c in cs])))
+                pr.append((f"{nm}: first row missing, another present", z3.And(z3.fpIsNaN(cs[0]), z3.Or([z3.Not(z3.fpIsNaN(c)) for c in cs[1:]] + [T(False)]))))
+                pr.append((f"{nm}: integral values only", z3.And([z3.And(z3.Not(z3.fpIsNaN(c)), z3.Not(z3.fpIsInf(c)), c == z3.fpRoundToIntegral(z3.RTZ(), c)) for c in cs])))
+                pr.append((f"{nm}: subnormal value", z3.Or([z3.fpIsSubnormal(c) for c in cs])))
         return pr
     def spec(self, inp, out):
         if isinstance(out, Raised): return [(f"does not raise ({out.type}: {out.msg[:80]})", T(False))]
